@@ -590,10 +590,10 @@ fn render_value(v: SnmpValue) -> String {
     }
 }
 
-type Dec = Result<(usize, String), String>; // (remaining length, rendering)
+pub type Dec = Result<(usize, String), String>; // (remaining length, rendering)
 
 /// Decode with the typed decoder for `kind` (None when only SnmpValue handles it).
-fn typed_decode(kind: u8, b: &[u8]) -> Option<Dec> {
+pub fn typed_decode(kind: u8, b: &[u8]) -> Option<Dec> {
     macro_rules! d {
         ($t:ty, $f:expr) => {
             Some(match <$t>::from_ber(b) {
@@ -623,7 +623,7 @@ fn typed_decode(kind: u8, b: &[u8]) -> Option<Dec> {
     }
 }
 
-fn value_decode(b: &[u8]) -> Dec {
+pub fn value_decode(b: &[u8]) -> Dec {
     match SnmpValue::from_ber(b) {
         Ok((rest, v)) => Ok((rest.len(), render_value(v))),
         Err(e) => Err(format!("{:?}", e)),
@@ -744,7 +744,7 @@ fn build_ref_message(c: &MsgCase, response: bool) -> Vec<u8> {
     re::tlv(0x30, &body)
 }
 
-fn decode_message(ver: u8, b: &[u8]) -> Result<String, String> {
+pub fn decode_message(ver: u8, b: &[u8]) -> Result<String, String> {
     let r = match ver {
         0 => SnmpV1Message::try_from(b).map(|m| format!("{:?}/{:?}", m.community, render_pdu(&m.pdu))),
         1 => SnmpV2cMessage::try_from(b).map(|m| format!("{:?}/{:?}", m.community, render_pdu(&m.pdu))),
